@@ -43,7 +43,8 @@ func (t *XMPPTransport) Connect() (string, error) {
 		return "", NewConnError(err, false)
 	}
 
-	t.closeChan = make(chan stanza.StreamClosePacket)
+	// One slot: the receiver announces the server's stream close without waiting for Close to be called
+	t.closeChan = make(chan stanza.StreamClosePacket, 1)
 	t.readWriter = newStreamLogger(t.conn, t.logFile)
 	t.decoder = xml.NewDecoder(bufio.NewReaderSize(t.readWriter, maxPacketSize))
 	t.decoder.CharsetReader = t.Config.CharsetReader
@@ -159,5 +160,8 @@ func (t *XMPPTransport) LogTraffic(logFile io.Writer) {
 }
 
 func (t *XMPPTransport) ReceivedStreamClose() {
-	t.closeChan <- stanza.StreamClosePacket{}
+	select {
+	case t.closeChan <- stanza.StreamClosePacket{}:
+	default:
+	}
 }
